@@ -60,10 +60,10 @@ Definition py_mod (a b : Z) : res Z := if b =? 0 then Raise ZeroDivisionError el
 Definition py_lshift (a b : Z) : res Z := if b <? 0 then Raise ValueError else Ok (a * 2 ^ b).
 Definition py_rshift (a b : Z) : res Z := if b <? 0 then Raise ValueError else Ok (a / 2 ^ b).
 
-Inductive cmpop := Eq | Ne | Lt | Le | Gt | Ge.
+Inductive cmpop := CEq | CNe | CLt | CLe | CGt | CGe.
 Definition py_cmp (op : cmpop) (a b : Z) : bool :=
   match op with
-  | Eq => a =? b | Ne => negb (a =? b) | Lt => a <? b | Le => a <=? b | Gt => b <? a | Ge => b <=? a
+  | CEq => a =? b | CNe => negb (a =? b) | CLt => a <? b | CLe => a <=? b | CGt => b <? a | CGe => b <=? a
   end.
 
 (* ------------------------------------------------------------------ tagged representation *)
@@ -234,27 +234,27 @@ Definition tagged_is_le (l r : tagged) : bool :=
 (* ---- comparisons: lowering (mypyc/lower/int_ops.py compare_tagged, general `int` operands) *)
 Definition short_variant (op : cmpop) (a b : Z) : bool :=    (* ComparisonOp.EQ/NEQ/SLT/SLE/SGT/SGE on raw words *)
   match op with
-  | Eq => a =? b | Ne => negb (a =? b)
-  | Lt => s64 a <? s64 b | Le => s64 a <=? s64 b | Gt => s64 b <? s64 a | Ge => s64 b <=? s64 a
+  | CEq => a =? b | CNe => negb (a =? b)
+  | CLt => s64 a <? s64 b | CLe => s64 a <=? s64 b | CGt => s64 b <? s64 a | CGe => s64 b <=? s64 a
   end.
 (* int_comparison_op_mapping: (c function is IsEq_?, negated, swap operands) *)
 Definition cmp_mapping (op : cmpop) : bool * bool * bool :=
   match op with
-  | Eq => (true, false, false) | Ne => (true, true, false)
-  | Lt => (false, false, false) | Le => (false, true, true)
-  | Gt => (false, false, true) | Ge => (false, true, false)
+  | CEq => (true, false, false) | CNe => (true, true, false)
+  | CLt => (false, false, false) | CLe => (false, true, true)
+  | CGt => (false, false, true) | CGe => (false, true, false)
   end.
 Definition is_short (t : tagged) : bool := match t with Short _ => true | Long _ => false end.
 Definition raw_short_variant (op : cmpop) (l r : tagged) : bool :=
   match l, r with
   | Short a, Short b => short_variant op a b
-  | _, _ => match op with Ne => true | _ => false end   (* only reached for ==/!= with an even and an odd word *)
+  | _, _ => match op with CNe => true | _ => false end   (* only reached for ==/!= with an even and an odd word *)
   end.
 Definition compare_tagged (op : cmpop) (l r : tagged) : bool :=
   let '(use_eq, negated, swap) := cmp_mapping op in
   let go_int_block :=
     match op with
-    | Eq | Ne => negb (is_short l)                       (* only lhs is checked *)
+    | CEq | CNe => negb (is_short l)                       (* only lhs is checked *)
     | _ => negb (is_short l) || negb (is_short r)
     end in
   if go_int_block then
